@@ -293,6 +293,20 @@ Ret(c, k, err, r, v4, v6, rs) ==
     /\ calls' = [calls EXCEPT ![c] = NoCall]
     /\ UNCHANGED <<conf, cloud, meta, memo, blocked, rg>>
 
+(* ---------------------------------------------------------------- full stack: the pool's own view at quiescence *)
+(* st: set of [e, status, v4, v6, valid4, valid6] - Status() of every slot of the real pool (e = 0: empty slot), after *)
+(* a drain with a healthy cloud.  C07 at pool level, now with the real factory underneath: the interfaces the pool   *)
+(* tracks are the secondary interfaces the cloud has attached to this instance, no address of theirs is unknown to   *)
+(* the pool, and nothing the pool counts as valid is missing in the cloud.                                           *)
+Quiescent(st) ==
+    LET tracked == { s \in st : s.e # 0 } IN
+    /\ Open = {}                                                                                          \* (I)
+    /\ G("C07", { s.e : s \in tracked } = { e \in Enis : cloud[e].inst = 1 /\ cloud[e].type # "Primary" })
+    /\ G("C07", \A s \in tracked : C(s.e).v4 \subseteq s.v4 /\ C(s.e).v6 \subseteq s.v6)
+    /\ G("C07", \A s \in tracked : s.valid4 \subseteq C(s.e).v4 /\ s.valid6 \subseteq C(s.e).v6)
+    /\ G("C07", \A e \in Enis : cloud[e].st # "none" => cloud[e].inst # 0)                               \* nothing left behind unattached
+    /\ UNCHANGED vars
+
 -----------------------------------------------------------------------------
 (* State invariants: theorems of the guarded specification, evaluated in every state of a validated trace *)
 OpenE == UNION { calls[c].mE : c \in Slots }
